@@ -4,7 +4,9 @@ package c14
 // undamaged files, the concrete damage and the model's expectation: the files are laid
 // out again, damaged, read back with the real code and compared. The two probe records
 // (ticker rotation, embedded look-alike record) are deterministic constructions and are
-// simply run again.
+// simply run again; so is the probe that rotates at every boundary between two Group.Write
+// calls of a record. The concurrent rotation probe is run again as well, but its schedule is
+// the Go scheduler's.
 
 import (
 	"encoding/base64"
@@ -60,6 +62,16 @@ func runReplayFile(c *core.Ctx) {
 	case "lookalike":
 		lookAlikeProbe(c, base)
 		o.Traces = 1
+		return
+	case "groupwrite-probe":
+		if present, _, err := probeGroupWriteHook(base); err == nil && present {
+			gwMode = bindHook
+		}
+		groupWriteBoundaryProbe(c, base)
+		return
+	case "concurrent":
+		// (a schedule of the Go scheduler: re-running it shows the window again with high probability only)
+		concurrentRotationProbe(c, base, 12, 100)
 		return
 	case "case":
 	default:
